@@ -154,6 +154,21 @@ static void run_case(CaseCtx& c)
                     uscale[grid.index(i, j)] = ex->exact_solution(r, t, std::sin(t), std::cos(t));
                 }
         }
+        // ... but where the manufactured solution vanishes (Refined near the origin, entries ~ 1/R0) the iterate carries the
+        // discretisation error, and its rounding floor is what a residual evaluation really has: use the iterate while it is
+        // bounded by 1e3 max|u_exact| (coarse grids: the discrete solution itself can be 10x off)
+        {
+            double mex = 0, mu = 0;
+            bool fin = true;
+            for (int k = 0; k < n; k++) {
+                mex = std::max(mex, std::fabs(uscale[k]));
+                mu  = std::max(mu, std::fabs(u[k]));
+                fin = fin && std::isfinite(u[k]);
+            }
+            if (fin && mu <= 1e3 * mex)
+                for (int k = 0; k < n; k++)
+                    uscale[k] = std::max(std::fabs(uscale[k]), std::fabs(u[k]));
+        }
         std::vector<ld> Au, absAu;
         ir.A->apply(uscale, Au, &absAu);
         std::vector<ld> sc(absAu.size());
